@@ -73,8 +73,11 @@ pub fn check_api(f: &Fun, filter: char) -> Result<bool, Violation> {
         if let Some(x) = plain::support_syms(&r).iter().find(|x| !fsup.contains(x)) {
             return Err(v(format!("result tests variable {} which f does not depend on", x)));
         }
-        // the result lives in the environment (shared nodes)
+        // the result lives in the environment (shared nodes) - when the operand did
         for n in plain::reachable(&r) {
+            if crate::fun::operands() != crate::fun::Operands::Interned {
+                break;
+            }
             let nodes = env.nodes.borrow();
             match nodes.get(n.as_ref()) {
                 Some(e) if Rc::ptr_eq(e, &n) => {}
@@ -312,7 +315,10 @@ pub fn run(ctx: &mut Ctx) -> Result<(), Violation> {
         let mut t = Tape::new(tape);
         let f = gen_fun(&mut t, 8, 12);
         let filter = ['t', 'f', 'a'][t.choose(3)];
-        let om = check_api(&f, filter)?;
+        let mode = crate::fun::gen_operands(&mut t);
+        st.class(&format!("operands:{}", mode.name()));
+        let mut om = false;
+        crate::fun::with_operands(mode, || check_api(&f, filter).map(|o| om = o))?;
         record(&f, filter, "api", om, st);
         Ok(())
     });
@@ -351,7 +357,7 @@ pub fn replay(case: &Value) -> Check {
     let filter = case["filter"].as_str().unwrap_or("");
     match (case["kind"].as_str(), f) {
         (Some("api"), Some(f)) if !filter.is_empty() => {
-            check_api(&f, filter.chars().next().unwrap()).map(|_| ())
+            crate::fun::with_operands(crate::fun::case_operands(case), || check_api(&f, filter.chars().next().unwrap()).map(|_| ()))
         }
         (Some("cli"), Some(f)) => check_cli_rows(&f, filter, case["rows"].as_str().unwrap_or("any")),
         (Some("sequence"), Some(f)) => match (Fun::from_json(&case["g"]), case["order"].as_str()) {
